@@ -314,6 +314,15 @@ func runC02(c *caseWriter) (string, bool, map[string]int) {
 	cc(`<link rel="{{.A}}" href="{{.B}}">`, c02Map("A", "stylesheet", "B", "//"+mkB+"/x.css"))
 	cc(`<link {{if .A}}rel="stylesheet"{{else}}rel="icon"{{end}} href="{{.B}}">`, c02Map("A", "1", "B", "//"+mkB+"/x.css"))
 	cc(`<link rel="{{if .A}}stylesheet{{else}}icon{{end}}" href="{{.B}}">`, c02Map("A", "1", "B", "//"+mkB+"/x.css"))
+	// branches that differ ONLY in the rel value (or in where the tag starts), both orders, both outcomes
+	for _, a := range []string{"1", ""} {
+		for _, rels := range [][2]string{{"icon", "stylesheet"}, {"stylesheet", "icon"}, {"alternate", "stylesheet"}, {"next", "STYLESHEET"}} {
+			cc(`<link {{if .A}}rel="`+rels[0]+`"{{else}}rel="`+rels[1]+`"{{end}} href="{{.B}}">`, c02Map("A", a, "B", "//"+mkB+"/x.css"))
+			cc(`{{if .A}}<link rel="`+rels[0]+`"{{else}}<link rel="`+rels[1]+`"{{end}} href="{{.B}}">`, c02Map("A", a, "B", "//"+mkB+"/x.css"))
+			cc(`{{with .A}}<link rel="`+rels[0]+`"{{else}}<link rel="`+rels[1]+`"{{end}} href="{{$.B}}">`, c02Map("A", a, "B", "//"+mkB+"/x.css"))
+		}
+		cc(`<script {{if .A}}type="text/plain"{{else}}type="text/javascript"{{end}} src="{{.B}}"></script>`, c02Map("A", a, "B", "//"+mkB+"/x.js"))
+	}
 
 	// ------------------------------------------------------------ (5) helper templates: D1, D4 shapes
 	helperData := []string{mkA, "//" + mkA + "/x", "onmouseover=" + mkA, "javascript:" + mkA}
